@@ -34,6 +34,12 @@ pub enum Policy {
     /// adversary: between any two steps of thread `reader` (while it is inside a load), another
     /// thread completes `k` whole operations
     Burst { reader: u8, k: u8 },
+    /// role-triggered stall: thread `victim` is parked right after its `park_nth`-th access to a
+    /// location of role `park_role`; it is woken when another thread makes its `wake_nth`-th access
+    /// of role `wake_role` (on the victim's node, for node roles), runs `run` steps, and is parked
+    /// again until the waking thread has finished its current operation. Aims schedules at the
+    /// few-instruction windows between a read and the publication that protects it.
+    Stall { victim: u8, park_role: Role, park_nth: u8, wake_role: Role, wake_nth: u8, run: u8 },
 }
 
 #[derive(Clone, Debug, PartialEq, Eq, Serialize, Deserialize)]
@@ -243,6 +249,11 @@ pub struct Stats {
     pub acq_overlapped: usize,
     pub peak_alive: usize,
     pub tmp_node_ops: usize,
+    /// a writer of container W paid a fast-slot debt of a thread that is inside a load of another
+    /// container (the F4 precondition: an unconfirmed debt paid by a foreign writer)
+    pub foreign_pay_unconfirmed: usize,
+    pub stall_parked: usize,
+    pub stall_woken: usize,
 }
 
 #[derive(Clone, Default)]
@@ -301,6 +312,14 @@ pub struct State {
     pub quiesce_hook: Option<fn(&mut State)>,
     pub load_bound: usize,
     pub deadlock: bool,
+    /// Stall policy: 0 = waiting to park, 1 = parked, 2 = burst, 3 = parked until the waker's op
+    /// ends, 4 = over
+    pub stall_phase: u8,
+    pub stall_count: usize,
+    pub stall_burst: usize,
+    pub stall_waker: usize,
+    pub stall_waker_ops: usize,
+    pub parked: usize,
     /// logical clock: ticks on every step and on every stamp (exact real-time order of events)
     pub clock: usize,
 }
@@ -351,6 +370,12 @@ pub fn rt() -> &'static Rt {
             quiesce_hook: None,
             load_bound: 0,
             deadlock: false,
+            stall_phase: 0,
+            stall_count: 0,
+            stall_burst: 0,
+            stall_waker: NONE_T,
+            stall_waker_ops: 0,
+            parked: NONE_T,
             clock: 0,
         }),
         cv: (0..MAXT).map(|_| Condvar::new()).collect(),
@@ -445,6 +470,12 @@ impl State {
         self.freeze_state = 0;
         self.alive = 0;
         self.deadlock = false;
+        self.stall_phase = 0;
+        self.stall_count = 0;
+        self.stall_burst = 0;
+        self.stall_waker = NONE_T;
+        self.stall_waker_ops = 0;
+        self.parked = NONE_T;
         self.clock = 0;
         // PCT priorities / change points
         self.prio.clear();
@@ -975,7 +1006,7 @@ impl State {
     // ---- scheduling ----
 
     fn enabled(&self) -> Vec<usize> {
-        (1..self.th.len()).filter(|&t| self.th[t].st == TS::Run && !self.th[t].frozen).collect()
+        (1..self.th.len()).filter(|&t| self.th[t].st == TS::Run && !self.th[t].frozen && t != self.parked).collect()
     }
 
     fn unfreeze(&mut self) {
@@ -1021,6 +1052,28 @@ impl State {
                 match mepos {
                     Some(p) => (bpos + en.len() - p) % en.len(),
                     None => bpos,
+                }
+            }
+            Policy::Stall { victim, .. } => {
+                let v = victim as usize + 1;
+                // during the burst the victim runs; otherwise a mild random schedule
+                if self.stall_phase == 2 && en.contains(&v) {
+                    let vpos = en.iter().position(|&t| t == v).unwrap();
+                    return match mepos {
+                        Some(p) => (vpos + en.len() - p) % en.len(),
+                        None => vpos,
+                    };
+                }
+                match mepos {
+                    Some(_) => {
+                        let x = self.rnd();
+                        if (x & 0xff) < 20 {
+                            1 + ((x >> 8) as usize % (en.len() - 1))
+                        } else {
+                            0
+                        }
+                    }
+                    None => (self.rnd() >> 8) as usize % en.len(),
                 }
             }
             Policy::Burst { reader, k } => {
@@ -1104,6 +1157,12 @@ fn sched<'a>(r: &'a Rt, mut st: MutexGuard<'a, State>, me: usize) -> MutexGuard<
         }
     }
     let mut en = st.enabled();
+    if en.is_empty() && st.parked != NONE_T {
+        // everybody else is finished or blocked: the stall is over
+        st.parked = NONE_T;
+        st.stall_phase = 4;
+        en = st.enabled();
+    }
     if en.is_empty() {
         // nothing runnable: if threads are frozen, the window is over
         if st.th.iter().any(|t| t.frozen) {
@@ -1227,6 +1286,9 @@ fn classify(st: &mut State, me: usize, a: &Access, role: Role, node: usize, res:
                     if let Some(&o) = st.owner.get(&node) {
                         if o != me {
                             st.th[o].op_paid = true;
+                            if role == Role::FastSlot && st.th[o].op == OpKind::Load && st.th[o].op_cont != st.th[me].op_cont && st.th[o].op_cont != 0 {
+                                st.stats.foreign_pay_unconfirmed += 1;
+                            }
                         }
                     }
                 }
@@ -1450,6 +1512,47 @@ pub fn hook(a: &Access) -> Option<(usize, bool, usize)> {
         st.trace.push(s);
     }
     classify(&mut st, me, a, role, node, res);
+    if let Policy::Stall { victim, park_role, park_nth, wake_role, wake_nth, run } = st.spec.policy.clone() {
+        let v = victim as usize + 1;
+        match st.stall_phase {
+            0 if me == v && role == park_role => {
+                st.stall_count += 1;
+                if st.stall_count >= park_nth.max(1) as usize {
+                    st.stall_phase = 1;
+                    st.stall_count = 0;
+                    st.parked = v;
+                    st.stats.stall_parked += 1;
+                }
+            }
+            1 if me != v && role == wake_role && (node == 0 || node == st.th[v].node || st.th[v].node == 0) => {
+                st.stall_count += 1;
+                if st.stall_count >= wake_nth.max(1) as usize {
+                    st.stall_phase = 2;
+                    st.parked = NONE_T;
+                    st.stall_burst = run.max(1) as usize;
+                    st.stall_waker = me;
+                    st.stall_waker_ops = st.th[me].ops_done;
+                    st.stats.stall_woken += 1;
+                }
+            }
+            2 if me == v => {
+                st.stall_burst -= 1;
+                if st.stall_burst == 0 {
+                    // park again until the waking thread has finished its operation
+                    st.stall_phase = 3;
+                    st.parked = v;
+                }
+            }
+            3 => {
+                let w = st.stall_waker;
+                if w == NONE_T || st.th[w].st != TS::Run || st.th[w].ops_done > st.stall_waker_ops {
+                    st.stall_phase = 4;
+                    st.parked = NONE_T;
+                }
+            }
+            _ => {}
+        }
+    }
     if st.abort {
         wake_all(r);
         check_abort(st);
